@@ -17,3 +17,6 @@ t R3-C16-m2 C16
 t R3-C17-m1 C17
 t R3-C17-m2 C17 C14
 for p in C01 C03 C04 C06 C08 C10 C11 C13 C14 C15; do for m in m1 m2; do t R4-$p-$m $p; done; done
+# seeds rebased onto the repaired File::close() (dcdda94)
+t C06-m1 C06 C13
+t C10-m2 C10 C06
